@@ -560,8 +560,62 @@ pub fn panic_message(e: &Box<dyn std::any::Any + Send>) -> String {
     }
 }
 
+/// Wall-clock watchdog: a case that does not return is an infrastructure problem (exit 2),
+/// never a verdict. (Virtual-time deadlines inside the simulator are the only hang oracles.)
+pub mod watchdog {
+    use std::collections::HashMap;
+    use std::sync::{Mutex, Once};
+    use std::thread::ThreadId;
+    use std::time::{Duration, Instant};
+
+    static RUNNING: Mutex<Option<HashMap<ThreadId, (Instant, String, String)>>> = Mutex::new(None);
+    static START: Once = Once::new();
+
+    pub fn limit() -> Duration {
+        Duration::from_secs(std::env::var("VERIF_CASE_TIMEOUT_S").ok().and_then(|s| s.parse().ok()).unwrap_or(420))
+    }
+
+    pub fn begin(what: &str, case: String) {
+        START.call_once(|| {
+            *RUNNING.lock().unwrap() = Some(HashMap::new());
+            std::thread::Builder::new().name("watchdog".into()).spawn(|| loop {
+                std::thread::sleep(Duration::from_secs(2));
+                let g = RUNNING.lock().unwrap();
+                if let Some(m) = g.as_ref() {
+                    for (start, what, case) in m.values() {
+                        if start.elapsed() > limit() {
+                            let dir = super::verif_dir().join("out");
+                            let _ = std::fs::create_dir_all(&dir);
+                            let path = dir.join(format!("stuck-{}.json", what.replace([':', '/'], "-")));
+                            let _ = std::fs::write(&path, case);
+                            println!("INCONCLUSIVE {what}: a case did not return within {:?} of wall-clock time (harness/simulator problem, not a verdict); case saved to {}", limit(), path.display());
+                            std::process::exit(2);
+                        }
+                    }
+                }
+            }).expect("watchdog thread");
+        });
+        if let Some(m) = RUNNING.lock().unwrap().as_mut() {
+            m.insert(std::thread::current().id(), (Instant::now(), what.to_string(), case));
+        }
+    }
+
+    pub fn end() {
+        if let Some(m) = RUNNING.lock().unwrap().as_mut() {
+            m.remove(&std::thread::current().id());
+        }
+    }
+}
+
 fn run_case_caught<P: Part>(part: &P, case: &P::Case, obs: &mut Obs) -> Result<(), Fail> {
     crate::panics::clear_thread();
+    watchdog::begin(part.name(), serde_json::to_string(case).unwrap_or_default());
+    let r = run_case_caught_inner(part, case, obs);
+    watchdog::end();
+    r
+}
+
+fn run_case_caught_inner<P: Part>(part: &P, case: &P::Case, obs: &mut Obs) -> Result<(), Fail> {
     let r = std::panic::catch_unwind(std::panic::AssertUnwindSafe(|| part.run(case, obs)));
     match r {
         Ok(r) => r,
